@@ -35,13 +35,14 @@ def main():
     if r["outcome"] != "code":
         return
     probes = [enc(v) for v in vals]
-    o = vlib.run_driver([{"id": 0, "code": r["code"], "root": "T", "probes": probes, "ops": ["validate", "hash", "describe", "errors"]}], "tryts")[0]
+    o = vlib.run_driver([{"id": 0, "code": r["code"], "root": "T", "probes": probes, "ops": ["validate", "hash", "describe", "errors", "schema"]}], "tryts")[0]
     print("load:", o["load"], o.get("loadmsg", "")[:500])
     if o["load"] != "ok":
         return
     for v, p in zip(vals, o["probes"]):
         print("  ", json.dumps(v)[:100], "=> default", p["val"], "strict", p["vals"])
-    print("hash256:", o["h256"]["v"][:16], "describe:", o["describe"])
+    print("hash256:", o["h256"]["v"][:16], "hash:", o["h32"], "describe:", o["describe"])
+    print("schema:", json.dumps(o.get("flat", {}).get("json", o.get("flat")))[:1500])
     if o["describe"]["ok"]:
         import re
         names = re.findall(r"^type\s+([A-Za-z_$][A-Za-z0-9_$]*)\s*=", o["describe"]["v"], re.M)
